@@ -28,7 +28,7 @@ def run_child(cases, hashseed, shuffle):
 
 class C08(Prop):
     id = 'C08'
-    theorems = ['C08.semcfg_str_perm', 'C08.semOf_perm', 'C08.sorted_perm', 'C08.md5_rfc1321_vectors']
+    theorems = ['C08.sorted_perm', 'C08.semcfg_str_perm', 'C08.semOf_perm', 'C08.strLines_perm', 'C08.matchAll_perm', 'C08.build_cfg_order_free', 'C08.ports_order_free', 'C08.matchPorts_ok_order_free', 'C08.md5_rfc1321_vectors']
     proof_modules = ['DznProofs.C08']
     level_rule = ('configurations whose port selections name 2-5 ports, built in child interpreters with '
                   'PYTHONHASHSEED 0..15 (quick) / 0..127 (thorough), each with a different construction order of '
